@@ -470,3 +470,44 @@ def run(repo: Repo, rep: Report, tier: str) -> None:
     rep.floor("handlers (event parameter) with write sinks", n_handlers, 2)
     rep.floor("sanitiser applications on peer data", n_san, 1)
     rep.counters["tainted sinks"] = tainted_sinks
+    check_configured_dir_used(repo, rep)
+
+
+def check_configured_dir_used(repo: Repo, rep: Report) -> None:
+    """storescp / the shared handle_store: when an output directory is configured (`args.output_directory is
+    not None`) every way from that test to the write must put the directory in front of the file name; a path
+    that skips the join (an exception branch that 'passes') writes the instance into the process's current
+    directory instead - outside the storage directory - and still answers Success."""
+    from ..cfg import CFG, calls_at
+
+    rep.rule("configured-dir", "with an output directory configured, every path from the test to the write joins the directory to the file name")
+    n = 0
+    for mname, m in sorted(repo.modules.items()):
+        if not mname.startswith("pynetdicom.apps.") or ".tests" in mname:
+            continue
+        short = mname.replace("pynetdicom.", "")
+        for fn in [f for f in ast.walk(m.tree) if isinstance(f, ast.FunctionDef)]:
+            tests = [i for i in walk_no_nested(fn) if isinstance(i, ast.If) and norm(i.test) in ("args.output_directory is not None", "args.output_directory")]
+            if not tests or not sinks_in(fn):
+                continue
+            cfg = CFG(fn, body=body_nodoc(fn), may_raise=lambda node: True)
+            for i in tests:
+                n += 1
+                tn = [x for x in cfg.nodes if x.kind == "test" and x.ast is i]
+                if not tn:
+                    continue
+                start = [mm for mm, l in tn[0].succ if l == "true"]
+                sink_nodes = {x.id for x in cfg.nodes if x.ast is not None and x.kind == "stmt" and any(c in [s_[0] for s_ in sinks_in(fn)] for c in calls_at(x))}
+
+                def joins(x):
+                    return x.kind == "stmt" and isinstance(x.ast, ast.Assign) and isinstance(x.ast.value, ast.Call) and (dotted(x.ast.value.func) or "") in ("os.path.join", "Path") and any("output_directory" in norm(a) for a in x.ast.value.args)
+
+                ok, w = True, []
+                for s0 in start:
+                    if joins(s0):
+                        continue
+                    ok, w = cfg.must_pass(s0, joins, sink_nodes)
+                    if not ok:
+                        break
+                rep.check(ok, "configured-dir", f"{short}.{qualname(fn) or fn.name}", i, "with an output directory configured a path reaches the file write without joining the directory to the file name: the instance is written relative to the current working directory, outside the storage directory, and the peer is told Success", mod=m, node=i, path=[f"L{x.line}" for x in w if x.ast is not None][-10:])
+    rep.floor("output-directory tests followed", n, 1)
